@@ -5,7 +5,7 @@ from vf.lazy import ck, libx, common
 from vf.monitors import algos, large
 
 PROP = "C10"
-TECHNIQUE = ('runtime monitoring of PickAPerm (shared object, second scheme on the same objects) against the reference candidates / minima; refusal expected iff incomplete and not a multiple of the unifying scheme on both vectors; traps of 1000+ elements and size classes (vectorised reference); same objects again after an in-place mutation')
+TECHNIQUE = ('runtime monitoring of PickAPerm (shared object, second scheme on the same objects) against the reference candidates / minima; refusal expected iff incomplete and not a multiple of the unifying scheme on both vectors; traps of 1000+ elements and size classes (vectorised reference); same objects again after an in-place mutation; the bench_mode route')
 RULE = ("cases = dataset (D1-D6 incl. duplicates, ties among minima, empty rankings; D7, D8; n<=8) x scheme (S1 presets, S2 "
         "multiples, S5 look-alikes proportional to the unifying scheme on ONE vector only, S3, S4) x both values of "
         "return_at_most_one_ranking; non-trivial = >= 2 distinct candidate rankings; distinct = digest of (dataset, scheme, flag)")
